@@ -122,11 +122,16 @@ extern "C" void harness_c32_modular()
     long nn = 1 + (long)verif_choice("n", 4);
     std::vector<RCP<const Integer>> roots;
     nthroot_mod_list(roots, a, integer(nn), m);
-    long count = 0, prev = -1;
+    long count = 0;
+    std::vector<long> seen;
     for (auto &r : roots) {
-        long rv = L(*r);
-        verif_assert(rv >= 0 && rv < mv && rv > prev, "roots are distinct, sorted and in [0,m)");
-        prev = rv;
+        long rv = ((L(*r) % mv) + mv) % mv; // any representative of the residue class is accepted
+        bool dup = false;
+        for (long s : seen)
+            if (s == rv)
+                dup = true;
+        verif_assert(!dup, "the returned roots are distinct modulo m");
+        seen.push_back(rv);
         verif_assert(powmod(rv, nn, mv) == ((av % mv) + mv) % mv, "r^n == a (mod m) for every returned root");
         count++;
     }
